@@ -25,15 +25,17 @@ type pureTarget struct {
 	pkgdir, pkgpath string
 	recv, name      string // receiver type name ("" for plain functions) and function name
 	coqName         string
+	effects         bool // a procedure: translated to the list of calls it makes (strings are an abstract type S)
 }
 
 var pureTargets = []pureTarget{
-	{"internal/tree", "github.com/issue9/mux/v9/internal/tree", "node", "priority", "src_node_priority"},
-	{"internal/tree", "github.com/issue9/mux/v9/internal/tree", "", "isAutoMethod", "src_is_auto_method"},
-	{"internal/syntax", "github.com/issue9/mux/v9/internal/syntax", "Segment", "IsAmbiguous", "src_is_ambiguous"},
-	{"internal/syntax", "github.com/issue9/mux/v9/internal/syntax", "Segment", "AmbiguousLen", "src_ambiguous_len"},
-	{"internal/syntax", "github.com/issue9/mux/v9/internal/syntax", "Segment", "Similarity", "src_similarity"},
-	{"internal/syntax", "github.com/issue9/mux/v9/internal/syntax", "Segment", "Valid", "src_seg_valid"},
+	{"internal/tree", "github.com/issue9/mux/v9/internal/tree", "node", "priority", "src_node_priority", false},
+	{"internal/tree", "github.com/issue9/mux/v9/internal/tree", "", "isAutoMethod", "src_is_auto_method", false},
+	{"internal/syntax", "github.com/issue9/mux/v9/internal/syntax", "Segment", "IsAmbiguous", "src_is_ambiguous", false},
+	{"internal/syntax", "github.com/issue9/mux/v9/internal/syntax", "Segment", "AmbiguousLen", "src_ambiguous_len", false},
+	{"internal/syntax", "github.com/issue9/mux/v9/internal/syntax", "Segment", "Similarity", "src_similarity", false},
+	{"internal/syntax", "github.com/issue9/mux/v9/internal/syntax", "Segment", "Valid", "src_seg_valid", false},
+	{".", "github.com/issue9/mux/v9", "cors", "handle", "src_cors_handle", true},
 }
 
 type atom struct {
@@ -41,6 +43,7 @@ type atom struct {
 }
 
 type pureTr struct {
+	effects bool
 	pi     *pkgInfo
 	atoms  []atom
 	byText map[string]int
@@ -89,6 +92,25 @@ func (t *pureTr) kind(e ast.Expr) string {
 }
 
 func (t *pureTr) text(e ast.Expr) string { return types.ExprString(e) }
+
+// expression of kind string (effects mode only): constants, locals, atoms of the abstract type S
+func (t *pureTr) sexpr(e ast.Expr) string {
+	if tv, ok := t.pi.info.Types[e]; ok && tv.Value != nil && tv.Value.Kind() == constant.String {
+		return "(lit " + q(constant.StringVal(tv.Value)) + ")"
+	}
+	switch x := e.(type) {
+	case *ast.ParenExpr:
+		return t.sexpr(x.X)
+	case *ast.Ident:
+		if k, ok := t.locals[x.Name]; ok && k == "string" {
+			return "v_" + x.Name
+		}
+	}
+	if t.kind(e) != "string" {
+		return t.fail("%s is not a string", t.text(e))
+	}
+	return t.atom(t.text(e), "S")
+}
 
 // expression of kind Z or bool
 func (t *pureTr) expr(e ast.Expr) string {
@@ -148,6 +170,13 @@ func (t *pureTr) expr(e ast.Expr) string {
 				}
 				return s
 			}
+			if t.effects && kx == "string" && ky == "string" && (x.Op == token.EQL || x.Op == token.NEQ) {
+				s := "(eqS " + t.sexpr(x.X) + " " + t.sexpr(x.Y) + ")"
+				if x.Op == token.NEQ {
+					s = "(negb " + s + ")"
+				}
+				return s
+			}
 			if x.Op == token.EQL || x.Op == token.NEQ { // equality of uninterpreted values: one boolean atom per pair
 				s := t.atom(t.text(x.X)+" == "+t.text(x.Y), "bool")
 				if x.Op == token.NEQ {
@@ -183,11 +212,27 @@ func (t *pureTr) expr(e ast.Expr) string {
 // statements followed by the rest of the enclosing blocks; the value is the function's result
 func (t *pureTr) stmts(ss []ast.Stmt, resKind string) string {
 	if len(ss) == 0 {
+		if t.effects {
+			return "[]"
+		}
 		return t.fail("control reaches the end of the function without a return")
 	}
 	s, rest := ss[0], ss[1:]
 	switch x := s.(type) {
+	case *ast.ExprStmt:
+		call, ok := x.X.(*ast.CallExpr)
+		if !ok || !t.effects {
+			return t.fail("expression statement %s", t.text(x.X))
+		}
+		var args []string
+		for _, a := range call.Args {
+			args = append(args, t.sexpr(a))
+		}
+		return "SCall " + q(t.text(call.Fun)) + " [" + strings.Join(args, "; ") + "] ::\n  " + t.stmts(rest, resKind)
 	case *ast.ReturnStmt:
+		if t.effects && len(x.Results) == 0 {
+			return "[]"
+		}
 		if len(x.Results) != 1 {
 			return t.fail("return with %d results", len(x.Results))
 		}
@@ -203,12 +248,21 @@ func (t *pureTr) stmts(ss []ast.Stmt, resKind string) string {
 			return t.fail("assignment to %s", t.text(x.Lhs[0]))
 		}
 		var rhs string
+		isStr := t.effects && t.kind(x.Rhs[0]) == "string"
 		switch x.Tok {
 		case token.DEFINE:
-			rhs = t.expr(x.Rhs[0])
+			if isStr {
+				rhs = t.sexpr(x.Rhs[0])
+			} else {
+				rhs = t.expr(x.Rhs[0])
+			}
 			t.locals[id.Name] = t.kind(x.Rhs[0])
 		case token.ASSIGN:
-			rhs = t.expr(x.Rhs[0])
+			if isStr {
+				rhs = t.sexpr(x.Rhs[0])
+			} else {
+				rhs = t.expr(x.Rhs[0])
+			}
 		case token.ADD_ASSIGN, token.SUB_ASSIGN:
 			op := "+"
 			if x.Tok == token.SUB_ASSIGN {
@@ -309,6 +363,8 @@ func translatePure(repo string, loadPkg func(dir, path string) (*pkgInfo, error)
 	var sb strings.Builder
 	sb.WriteString("(* GENERATED by tools/srcfacts (pure.go) from /repo on every run. Do not edit. *)\n")
 	sb.WriteString("From Coq Require Import String List ZArith Bool.\nImport ListNotations.\nOpen Scope string_scope.\n\n")
+	sb.WriteString("(* a call made by a translated procedure: callee as written in the source, string arguments *)\n")
+	sb.WriteString("Inductive sev (S : Type) := SCall (callee : string) (args : list S).\nArguments SCall {S}.\n\n")
 	cache := map[string]*pkgInfo{}
 	for _, tg := range pureTargets {
 		pi := cache[tg.pkgdir]
@@ -337,8 +393,11 @@ func translatePure(repo string, loadPkg func(dir, path string) (*pkgInfo, error)
 			sb.WriteString("Definition " + tg.coqName + "_untranslatable : string := " + q("function not found in the source") + ".\n\n")
 			continue
 		}
-		t := &pureTr{pi: pi, byText: map[string]int{}, locals: map[string]string{}}
+		t := &pureTr{pi: pi, byText: map[string]int{}, locals: map[string]string{}, effects: tg.effects}
 		resKind := "?"
+		if tg.effects {
+			resKind = "E"
+		}
 		if fd.Type.Results != nil && len(fd.Type.Results.List) == 1 {
 			resKind = t.kind(fd.Type.Results.List[0].Type)
 			if tv, ok := pi.info.Types[fd.Type.Results.List[0].Type]; ok && tv.Type != nil {
@@ -352,7 +411,13 @@ func translatePure(repo string, loadPkg func(dir, path string) (*pkgInfo, error)
 			}
 		}
 		body := "ERR"
-		if resKind != "Z" && resKind != "bool" {
+		if tg.effects {
+			if fd.Type.Results != nil && len(fd.Type.Results.List) > 0 {
+				t.fail("a procedure translated by its calls must not return a value")
+			} else {
+				body = t.stmts(fd.Body.List, resKind)
+			}
+		} else if resKind != "Z" && resKind != "bool" {
 			t.fail("result type is neither an integer nor a boolean")
 		} else {
 			body = t.stmts(fd.Body.List, resKind)
@@ -365,6 +430,10 @@ func translatePure(repo string, loadPkg func(dir, path string) (*pkgInfo, error)
 		}
 		sb.WriteString("(* " + rel + ": func " + tg.name + " *)\n")
 		sb.WriteString("Definition " + tg.coqName)
+		if tg.effects {
+			sb.WriteString(" (S : Type) (lit : string -> S) (eqS : S -> S -> bool)")
+			resKind = "list (sev S)"
+		}
 		for _, a := range t.atoms {
 			sb.WriteString(" (" + a.name + " : " + a.typ + ")")
 		}
